@@ -171,7 +171,7 @@ func c21Gen(c *vc.Ctx, b c21Bounds, emit func(c21Case)) {
 
 func c21(c *vc.Ctx) {
 	b := c21Bounds{
-		RemPat:      2,
+		RemPat:      vc.Pick(c, 1, 2),
 		ReplPat:     vc.Pick(c, 1, 2),
 		CasePat:     vc.Pick(c, 1, 2),
 		DefaultArgs: vc.Pick(c, []string{"d", "", "a b", `"a b"`}, []string{"d", "", "a b", `"a b"`, `'a b'`, "$y", `"$y z"`, "*"}),
